@@ -684,6 +684,17 @@ def rewriteFieldNames : Nat → Nat → Tbl → List Nat → Res (Tbl × List Na
         | none => rewriteFieldNames n (i + 1) tbl tys
       | _ => rewriteFieldNames n (i + 1) tbl tys
 
+/-- `for i := range FieldTypes { if i < len(Fields) { FieldTypes[i] = Fields[i].ReturnType() } }`
+    (repair 0014, C07): the types recorded by `parseSelect` predate the resolution of field names -/
+def refreshTypes (tbl : Tbl) : Nat → List Nat → Res (List Nat)
+  | _, [] => pure []
+  | i, t :: ts => do
+    let t' ← (match tbl[i]? with
+      | some (_, e) => ({ tbl := tbl } : CheckCtx).rt e
+      | none => pure t : Res Nat)
+    let ts' ← refreshTypes tbl (i + 1) ts
+    pure (t' :: ts')
+
 /-- `SelectStmt.ValidateFields(ctx)`: field `i`, `i+1`, … in turn (`n` fields left) -/
 def validateFields : Nat → Nat → Tbl → Res Tbl
   | 0, _, tbl => pure tbl
@@ -751,13 +762,17 @@ def parseWhere (efuel lfuel : Nat) (spos : Nat) (sel : SelAcc) (wherePos : Nat) 
     let tbl0 : Tbl := sel.names.zip sel.fields
     let (tbl, types) ← rewriteFieldNames tbl0.length 0 tbl0 sel.types
     let c ← clauseLoop pf efuel lfuel lfuel { tbl := tbl } ts
-    -- Check syntax
-    let ctx : CheckCtx := { tbl := c.tbl }
+    -- Check syntax (repair 0013, C14): the select fields first — twice, a field may use a field
+    -- defined after it and the second pass sees every field in its final form — then the filter,
+    -- whose alias references are typed through the fields as they now are
+    let tbl1 ← validateFields c.tbl.length 0 c.tbl
+    let tbl' ← validateFields tbl1.length 0 tbl1
+    let types ← refreshTypes tbl' 0 types
+    let ctx : CheckCtx := { tbl := tbl' }
     let expr' ← ctx.check expr
     let wt ← ctx.rt expr'
     if wt != tyTBOOL then synErr expr'.pos
-    else do
-      let tbl' ← validateFields c.tbl.length 0 c.tbl
+    else
       pure (.select {
         pos := spos, allFields := sel.all, fields := tbl'.map (fun p => resolveTop tbl' p.2),
         fieldNames := sel.names, fieldTypes := types,
